@@ -226,15 +226,55 @@ def mask_shape(f, e):
 def check_geometry(ctx, prog):
     n = 0
     skip = None
+    HGRID = (0, 1, 5, 255, 256, 4097, 65535, 65536, 0x12345678, 0x7fffffff, -1, -65537, -0x80000000)
+    binof_eval = {}
+
+    def bucket_fn(f, expr, len_pred):
+        """expr as a function (hash value, table length) -> bucket, by evaluation with the hash() call and the length() call
+        of the table bound"""
+        def fn_(h, L):
+            class Ev(bytesets.Evaluator):
+                def ev(self, e):
+                    if e is not None and e.get('k') == 'call':
+                        if (e.get('pq') or '').split('::')[-1] == 'hash':
+                            return h
+                        if (e.get('pq') or '') == 'asl::Array::length' and e.get('obj') is not None and len_pred(strip(e['obj'])):
+                            return L
+                    return bytesets.Evaluator.ev(self, e)
+
+                def sub_evaluator(self, g, env, arrays):
+                    sub = Ev(self.prog, g, env, arrays, self.depth + 1)
+                    return sub
+            return Ev(prog, f).ev(expr)
+        return fn_
     for f in hm_members(prog, 'binOf'):
         n += 1
         ctx.analysed(f)
         rets = [s_ for s_ in ir.walk_stmts(f['body']) if s_.get('k') == 'return']
-        ms = mask_shape(f, rets[0]['e']) if len(rets) == 1 else None
-        ctx.check(ms is not None and ms[1] == 'a', 'C02.geometry', f['pq'], 'binOf:mask', fwhere(f), 'bucket = (hash & (length - SKIP - 1)) + SKIP',
-                  'binOf() does not compute (hash(key) & (a.length() - SKIP - 1)) + SKIP (%s)' % f['q'])
-        if ms:
-            skip = ms[0]
+        role = 'binOf:mask'
+        if len(rets) != 1:
+            ctx.undecided('C02.geometry', f['pq'], role, fwhere(f), 'binOf() has %d return statements' % len(rets))
+            continue
+        fn_ = bucket_fn(f, q.expand(f, rets[0]['e']), lambda o: o.get('k') == 'mem' and o.get('f') == 'a')
+        try:
+            sk = fn_(0, 1000)
+            bad = None
+            for k in range(2, 12):
+                L = (1 << k) + sk
+                hit = set()
+                for h in HGRID + tuple(range(0, 1 << min(k, 6))):
+                    r_ = fn_(h, L)
+                    ctx.evaluations += 1
+                    if not sk <= r_ < L:
+                        bad = 'for a table of %d entries the key with hash %d goes to bucket %d, outside [%d, %d)' % (L, h, r_, sk, L)
+                    hit.add(r_)
+                if bad is None and k <= 6 and len(hit) < (1 << k):
+                    bad = 'for a table of %d entries only %d of the %d buckets are ever used' % (L, len(hit), 1 << k)
+            ctx.check(bad is None, 'C02.geometry', f['pq'], role, fwhere(f), 'every hash value lands in [SKIP, length), all buckets reachable (SKIP = %d)' % sk, 'binOf(): %s (%s)' % (bad, f['q']))
+            skip = sk
+            binof_eval[f['q'].rsplit('::', 1)[0]] = fn_
+        except bytesets.Undecidable as ex:
+            ctx.undecided('C02.geometry', f['pq'], role, fwhere(f), 'bucket expression not evaluable: %s' % ex)
     if skip is None:
         raise AnalysisBroken('cannot determine ASL_HMAP_SKIP from binOf()')
     ctx.info['ASL_HMAP_SKIP'] = skip
@@ -325,25 +365,18 @@ def check_geometry(ctx, prog):
                       'rehash() grows a table of 256 buckets to %s buckets: not (length - SKIP) * 2^k + SKIP, so the new size is not a power of two and the mask loses buckets (%s)' % (sizes[skip + 256] - skip, inst))
             okm = bool(idxs)
             why = 'no bucket expression with hash() indexes the new table'
+            bfn = binof_eval.get(f['q'].rsplit('::', 1)[0]) or (list(binof_eval.values())[0] if binof_eval else None)
+            if bfn is None:
+                okm, why = False, 'binOf() was not evaluable'
             for ix in idxs:
-                ix = strip(ix)
-                if not (ix.get('k') == 'bin' and ix.get('op') == '+'):
-                    okm, why = False, 'bucket expression `%s` is not (hash & mask) + SKIP' % pe(ix)
-                    break
-                a_, s2 = strip(ix['x']), ix['y']
-                if not (a_.get('k') == 'bin' and a_.get('op') == '&'):
-                    a_, s2 = strip(ix['y']), ix['x']
-                if not (a_.get('k') == 'bin' and a_.get('op') == '&'):
-                    okm, why = False, 'bucket expression `%s` is not (hash & mask) + SKIP' % pe(ix)
-                    break
-                h_, m_ = (a_['x'], a_['y']) if any(w.get('k') == 'call' and (w.get('pq') or '').split('::')[-1] == 'hash' for w in walk_expr(a_['x'])) else (a_['y'], a_['x'])
+                rfn = bucket_fn(f, ix, lambda o: o.get('k') == 'var' and o.get('id') == tv_['id'])
                 for L in sizes:
-                    mv = make_ev(L, sizes[L]).ev(m_)
-                    sv = make_ev(L, sizes[L]).ev(s2)
-                    ctx.evaluations += 2
-                    if mv != sizes[L] - skip - 1 or sv != skip:
-                        okm, why = False, 'for an old table of %d entries the new table has %d buckets but nodes are placed with mask %d and offset %d (binOf() uses mask %d, offset %d)' % (L, sizes[L] - skip, mv, sv, sizes[L] - skip - 1, skip)
-            ctx.check(okm, 'C02.geometry', f['pq'], 'rehash:mask agrees with binOf', fwhere(f), 'new bucket = (hash & (newlength - SKIP - 1)) + SKIP',
+                    for h in HGRID:
+                        got, want = rfn(h, sizes[L]), bfn(h, sizes[L])
+                        ctx.evaluations += 1
+                        if got != want and okm:
+                            okm, why = False, 'growing a table of %d entries to %d, a key with hash value %d is moved to bucket %d while binOf() looks for it in bucket %d' % (L, sizes[L], h, got, want)
+            ctx.check(okm, 'C02.geometry', f['pq'], 'rehash:mask agrees with binOf', fwhere(f), 'the bucket expression of rehash() and binOf() agree for every (hash, new length) of the grid',
                       'rehash() places nodes in buckets that binOf() will not look in: %s (%s)' % (why, inst))
         except bytesets.Undecidable as ex:
             ctx.undecided('C02.geometry', f['pq'], 'rehash:growth/mask', fwhere(f), 'size or mask expression not evaluable: %s' % ex)
